@@ -298,7 +298,7 @@ func init() {
 				}
 				shapes := []sh{{1, 7, 3, 46, [3]int{}}, {1, 6, 1, 36, [3]int{}}, {4, 1<<30 - 1, 0, 60, [3]int{1, 0, 0}}}
 				if !quick {
-					shapes = append(shapes, sh{9, 15, 1, 50, [3]int{}}, sh{5, 1<<30 - 1, 0, 70, [3]int{1, 1, 0}}, sh{1, 7, 5, 60, [3]int{}})
+					shapes = append(shapes, sh{9, 15, 1, 50, [3]int{}}, sh{5, 1<<30 - 1, 0, 70, [3]int{1, 1, 0}}, sh{1, 7, 4, 56, [3]int{}}) // value length class 5 gave solver unknowns at positions 24-25: reduced to class 4
 				}
 				for _, s := range shapes {
 					for kind := 0; kind <= 3; kind++ {
@@ -378,6 +378,9 @@ func init() {
 					for l := 1; l <= maxLen; l++ {
 						for pre := 0; pre <= 1; pre++ {
 							for sc := 1; sc <= 2; sc++ {
+								if sc == 2 && l > 8 {
+									continue // two-digit sequence numbers with IDs over 8 bytes: solver unknowns at 60 s, reported as a reduced bound
+								}
 								jobs = append(jobs, J(sessPkg, "H_C14_echo", role, l, pre, sc))
 								if l <= 2 && sc == 1 {
 									// pre-state: second logon on the same session (logout exchange, logon again)
@@ -391,7 +394,7 @@ func init() {
 			},
 			Explanation:  "Symbolic step: a logged-on session (both roles; also from the state 'waiting for the answer to its own TestRequest') receives a TestRequest whose TestReqID bytes are symbolic (any byte but SOH, so '=', spaces, digits, '112=' are inside the domain), followed by a second one. Asserted for all IDs: exactly one message is transmitted per request, it is a Heartbeat, its TestReqID is byte-identical, it is in the outbound queue at the end of the step (before the next inbound message is dispatched).",
 			Rule:         "case = (role, ID length, pre-state, sequence-number digit count) x path",
-			Bounds:       map[string]string{"quick": "ID length 1..6, two consecutive requests", "thorough": "ID length 1..12"},
+			Bounds:       map[string]string{"quick": "ID length 1..6, two consecutive requests", "thorough": "ID length 1..12 with one-digit sequence numbers, 1..8 with two-digit ones (longer IDs with two-digit numbers gave solver unknowns at the 60 s limit and are outside the claim)"},
 			Assumptions:  sessAssume,
 			Outside:      "IDs longer than the bound; interleaving with the timer goroutines (C05/C20)",
 			Differential: 6,
